@@ -42,13 +42,16 @@ manifest = {
     "engines": [
         {"name": "lean4-model+correspondence", "path": "/verif/lean, /verif/harness, /verif/check.py",
          "serves_properties": [c["property_id"] for c in checks],
-         "kind_free_text": "Lean 4 theorems about a hand-written executable model (lake project RSVerif, exe rsmodel); Rust harness "
-                           "with a path dependency on /repo runs model and implementation on the same op sequences and evaluates "
-                           "each property's direct oracle on the implementation"},
+         "kind_free_text": "Lean 4 machine-checked theorems (lake project RSVerif, ~38 500 lines, no sorry, axioms propext / Classical.choice / "
+                           "Quot.sound only) about (a) a hand-written executable model (exe rsmodel) and (b) Lean definitions REGENERATED from the "
+                           "current Rust source on every run by the translators in /verif/translate (every function of src/ is read by one: "
+                           "/verif/COVERAGE.md) and proved equal to the model; a Rust harness with a path dependency on /repo runs model and "
+                           "implementation on the same op sequences (correspondence) and evaluates each property's direct oracle on the "
+                           "implementation to find a failing input when an obligation or the correspondence breaks"},
     ],
     "checks": checks,
     "not_applicable": na,
-    "notes": "See DESIGN.md. Genuine defects repaired by fix: commits are listed in known_findings.json.",
+    "notes": "See DESIGN.md (approach, trusted base, per-property theorems, 160 seeded changes and which checks catch them, limits). Genuine defects repaired by fix: commits are listed in known_findings.json.",
 }
 json.dump(manifest, open(os.path.join(VERIF, "MANIFEST.json"), "w"), indent=1)
 print("claimed:", [c["property_id"] for c in checks])
